@@ -24,10 +24,10 @@ theorem any_loop {α : Type} (f : α → Bool) (b : Bool) (xs : List α) :
 
 theorem isFrameable_eq (c : Int) (h : Hdr) :
     banner_isFrameableHTMLResponse c h =
-      ((c == 200) && !((Hdr.values h banner_contentDispositionHeader).any (fun cd => Go.contains cd [97,116,116,97,99,104,109,101,110,116]))
+      ((c == 200) && !((Hdr.values h banner_contentDispositionHeader).any (fun cd => Go.contains (Go.toLower cd) [97,116,116,97,99,104,109,101,110,116]))
         && (Hdr.values h banner_contentTypeHeader).any (fun ct => Go.contains ct [116,101,120,116,47,104,116,109,108] || Go.contains ct [97,112,112,108,105,99,97,116,105,111,110,47,120,104,116,109,108,43,120,109,108])) := by
   simp only [banner_isFrameableHTMLResponse, Id.run]
-  rw [any_loop (fun cd => Go.contains cd [97,116,116,97,99,104,109,101,110,116]) false,
+  rw [any_loop (fun cd => Go.contains (Go.toLower cd) [97,116,116,97,99,104,109,101,110,116]) false,
       any_loop (fun ct => Go.contains ct [116,101,120,116,47,104,116,109,108] || Go.contains ct [97,112,112,108,105,99,97,116,105,111,110,47,120,104,116,109,108,43,120,109,108]) true]
   generalize (Hdr.values h banner_contentDispositionHeader).any _ = a1
   generalize (Hdr.values h banner_contentTypeHeader).any _ = a2
@@ -58,7 +58,7 @@ theorem isHTMLRequest_iff (r : Req) :
 theorem isFrameable_iff (c : Int) (h : Hdr) :
     banner_isFrameableHTMLResponse c h = true ↔
       (c = 200 ∧
-       (∀ cd ∈ Hdr.values h banner_contentDispositionHeader, Go.contains cd [97,116,116,97,99,104,109,101,110,116] = false) ∧
+       (∀ cd ∈ Hdr.values h banner_contentDispositionHeader, Go.contains (Go.toLower cd) [97,116,116,97,99,104,109,101,110,116] = false) ∧
        (∃ ct ∈ Hdr.values h banner_contentTypeHeader,
           Go.contains ct [116,101,120,116,47,104,116,109,108] = true ∨ Go.contains ct [97,112,112,108,105,99,97,116,105,111,110,47,120,104,116,109,108,43,120,109,108] = true)) := by
   rw [isFrameable_eq]
@@ -183,21 +183,91 @@ theorem splice_correct' (code ct first rest : Bytes) (h : Go.contains (Go.toLowe
 
 /-! ### the response writers -/
 
-/-- status and header map at the first head-producing operation -/
+theorem isInterim_200 : isInterim 200 = false := by decide
+
+/-! event-list observers: API lemmas (so that the proofs never look inside the lambdas) -/
+
+/-- the first head event of an event list (`headOf` is this on `plain`) -/
+def hd (evs : List Ev) : Option (Int × Hdr) :=
+  evs.findSome? fun e => match e with | .head c h => some (c, h) | _ => none
+
+theorem headOf_eq_hd (h0 : Hdr) (ops : List Op) : headOf h0 ops = hd (plain h0 ops) := rfl
+
+theorem hd_append (a b : List Ev) : hd (a ++ b) = (hd a).or (hd b) := by
+  simp [hd, List.findSome?_append]
+theorem hd_cons_head (c : Int) (h : Hdr) (l : List Ev) : hd (.head c h :: l) = some (c, h) := rfl
+theorem hd_interim (c : Int) (h : Hdr) : hd [.interim c h] = none := rfl
+
+theorem statusOf_append (a b : List Ev) : statusOf (a ++ b) = (statusOf a).or (statusOf b) := by
+  simp [statusOf, List.findSome?_append]
+theorem statusOf_cons_head (c : Int) (h : Hdr) (l : List Ev) : statusOf (.head c h :: l) = some c := rfl
+theorem statusOf_body (b : Bytes) : statusOf [.body b] = none := rfl
+theorem statusOf_interim (c : Int) (h : Hdr) : statusOf [.interim c h] = none := rfl
+
+theorem interimsOf_append (a b : List Ev) : interimsOf (a ++ b) = interimsOf a ++ interimsOf b := by
+  simp [interimsOf]
+theorem interimsOf_nil : interimsOf [] = [] := rfl
+theorem interimsOf_head (c : Int) (h : Hdr) : interimsOf [.head c h] = [] := rfl
+theorem interimsOf_body (b : Bytes) : interimsOf [.body b] = [] := rfl
+theorem interimsOf_head_body (c : Int) (h : Hdr) (b : Bytes) : interimsOf [.head c h, .body b] = [] := rfl
+theorem interimsOf_interim (c : Int) (h : Hdr) : interimsOf [.interim c h] = [.interim c h] := rfl
+
+theorem bodyOf_append (a b : List Ev) : bodyOf (a ++ b) = bodyOf a ++ bodyOf b := by
+  simp [bodyOf]
+theorem bodyOf_head (c : Int) (h : Hdr) : bodyOf [.head c h] = [] := rfl
+theorem bodyOf_interim (c : Int) (h : Hdr) : bodyOf [.interim c h] = [] := rfl
+
+/-! single steps of the two writers before the final head -/
+
+theorem plain_wh_interim (h : Hdr) (pre : List Ev) (c : Int) (hi : isInterim c = true) :
+    Plain.step { hdr := h, wrote := false, out := pre } (.writeHeader c) =
+      { hdr := h, wrote := false, out := pre ++ [.interim c h] } := by
+  simp [Plain.step, hi]
+
+theorem plain_wh_final (h : Hdr) (pre : List Ev) (c : Int) (hi : isInterim c = false) :
+    Plain.step { hdr := h, wrote := false, out := pre } (.writeHeader c) =
+      { hdr := h, wrote := true, out := pre ++ [.head c h] } := by
+  simp [Plain.step, hi]
+
+theorem plain_write (h : Hdr) (pre : List Ev) (bs : Bytes) :
+    Plain.step { hdr := h, wrote := false, out := pre } (.write bs) =
+      { hdr := h, wrote := true, out := pre ++ [.head 200 h] ++ [.body bs] } := by
+  simp [Plain.step]
+
+theorem bw_wh_interim (cfg : Cfg) (h : Hdr) (wb : Bool) (pre : List Ev) (c : Int) (hi : isInterim c = true) :
+    BW.step cfg { hdr := h, wroteHeader := false, writeBytes := wb, out := pre } (.writeHeader c) =
+      { hdr := h, wroteHeader := false, writeBytes := wb, out := pre ++ [.interim c h] } := by
+  simp [BW.step, BW.writeHeader, hi]
+
+/-- status and header map at the first operation that produces the final head
+    (interim `writeHeader`s are skipped) -/
 def firstHead (h : Hdr) : List Op → Option (Int × Hdr)
   | [] => none
   | .setHeader k v :: t => firstHead (Hdr.set h k v) t
   | .addHeader k v :: t => firstHead (Hdr.add h k v) t
-  | .writeHeader c :: _ => some (c, h)
+  | .delHeader k :: t => firstHead (Hdr.del h k) t
+  | .writeHeader c :: t => if isInterim c then firstHead h t else some (c, h)
   | .write _ :: _ => some (200, h)
+
+/-- the interim events produced before the final head -/
+def preInterims (h : Hdr) : List Op → List Ev
+  | [] => []
+  | .setHeader k v :: t => preInterims (Hdr.set h k v) t
+  | .addHeader k v :: t => preInterims (Hdr.add h k v) t
+  | .delHeader k :: t => preInterims (Hdr.del h k) t
+  | .writeHeader c :: t => if isInterim c then .interim c h :: preInterims h t else []
+  | .write _ :: _ => []
 
 theorem plain_step_grows (s : Plain) (op : Op) : ∃ l, (Plain.step s op).out = s.out ++ l := by
   cases op with
   | setHeader k v => exact ⟨[], by simp [Plain.step]⟩
   | addHeader k v => exact ⟨[], by simp [Plain.step]⟩
+  | delHeader k => exact ⟨[], by simp [Plain.step]⟩
   | writeHeader c =>
     cases hw : s.wrote
-    · exact ⟨[.head c s.hdr], by simp [Plain.step, hw]⟩
+    · cases hi : isInterim c
+      · exact ⟨[.head c s.hdr], by simp [Plain.step, hw, hi]⟩
+      · exact ⟨[.interim c s.hdr], by simp [Plain.step, hw, hi]⟩
     · exact ⟨[], by simp [Plain.step, hw]⟩
   | write bs =>
     cases hw : s.wrote
@@ -213,23 +283,34 @@ theorem plain_out_grows (ops : List Op) (s : Plain) :
     obtain ⟨l', hl'⟩ := plain_step_grows s op
     exact ⟨l' ++ l, by rw [List.foldl_cons, hl, hl', List.append_assoc]⟩
 
-theorem headOf_eq_firstHead (h0 : Hdr) (ops : List Op) : headOf h0 ops = firstHead h0 ops := by
-  induction ops generalizing h0 with
-  | nil => rfl
+/-- generalised over the events already emitted (interim ones only, hence no head) -/
+theorem hd_plain_run (ops : List Op) (h0 : Hdr) (pre : List Ev) (hp : hd pre = none) :
+    hd (ops.foldl Plain.step { hdr := h0, wrote := false, out := pre }).out = firstHead h0 ops := by
+  induction ops generalizing h0 pre with
+  | nil => exact hp
   | cons op t ih =>
     cases op with
-    | setHeader k v => exact ih (Hdr.set h0 k v)
-    | addHeader k v => exact ih (Hdr.add h0 k v)
+    | setHeader k v => exact ih (Hdr.set h0 k v) pre hp
+    | addHeader k v => exact ih (Hdr.add h0 k v) pre hp
+    | delHeader k => exact ih (Hdr.del h0 k) pre hp
     | writeHeader c =>
-      obtain ⟨l, hl⟩ := plain_out_grows t (Plain.step { hdr := h0, wrote := false, out := [] } (.writeHeader c))
-      simp only [headOf, plain, List.foldl_cons, firstHead]
-      rw [hl]
-      simp [Plain.step]
+      cases hi : isInterim c
+      · obtain ⟨l, hl⟩ := plain_out_grows t (Plain.step { hdr := h0, wrote := false, out := pre } (.writeHeader c))
+        simp only [List.foldl_cons, firstHead, hi, Bool.false_eq_true, if_false]
+        rw [hl, plain_wh_final _ _ _ hi]
+        simp only [List.append_assoc, hd_append, hp, List.cons_append, List.nil_append, hd_cons_head, Option.none_or]
+      · simp only [List.foldl_cons, firstHead, hi, if_true]
+        rw [plain_wh_interim _ _ _ hi]
+        exact ih h0 _ (by rw [hd_append, hp, hd_interim]; rfl)
     | write bs =>
-      obtain ⟨l, hl⟩ := plain_out_grows t (Plain.step { hdr := h0, wrote := false, out := [] } (.write bs))
-      simp only [headOf, plain, List.foldl_cons, firstHead]
-      rw [hl]
-      simp [Plain.step]
+      obtain ⟨l, hl⟩ := plain_out_grows t (Plain.step { hdr := h0, wrote := false, out := pre } (.write bs))
+      simp only [List.foldl_cons, firstHead]
+      rw [hl, plain_write]
+      simp only [List.append_assoc, hd_append, hp, List.cons_append, List.nil_append, hd_cons_head, Option.none_or]
+
+theorem headOf_eq_firstHead (h0 : Hdr) (ops : List Op) : headOf h0 ops = firstHead h0 ops := by
+  rw [headOf_eq_hd]
+  exact hd_plain_run ops h0 [] rfl
 
 /-- a pass-through banner writer after the head -/
 def toBW (s : Plain) : BW := { hdr := s.hdr, wroteHeader := true, writeBytes := true, out := s.out }
@@ -250,37 +331,40 @@ theorem post_run (cfg : Cfg) (ops : List Op) (s : Plain) (hw : s.wrote = true) :
     rw [step_toBW cfg s op hw]
     exact ih _ (plain_step_wrote s op hw)
 
-theorem identity_run (cfg : Cfg) (ops : List Op) (h0 : Hdr)
+/-- generalised over the (interim) events `pre` already emitted by both writers -/
+theorem identity_run (cfg : Cfg) (ops : List Op) (h0 : Hdr) (pre : List Ev)
     (hn : ∀ c h, firstHead h0 ops = some (c, h) → banner_isFrameableHTMLResponse c h = false) :
-    (ops.foldl (BW.step cfg) { hdr := h0, wroteHeader := false, writeBytes := false, out := [] }).out =
-      (ops.foldl Plain.step { hdr := h0, wrote := false, out := [] }).out := by
-  induction ops generalizing h0 with
+    (ops.foldl (BW.step cfg) { hdr := h0, wroteHeader := false, writeBytes := false, out := pre }).out =
+      (ops.foldl Plain.step { hdr := h0, wrote := false, out := pre }).out := by
+  induction ops generalizing h0 pre with
   | nil => rfl
   | cons op t ih =>
     cases op with
-    | setHeader k v => exact ih (Hdr.set h0 k v) hn
-    | addHeader k v => exact ih (Hdr.add h0 k v) hn
+    | setHeader k v => exact ih (Hdr.set h0 k v) pre hn
+    | addHeader k v => exact ih (Hdr.add h0 k v) pre hn
+    | delHeader k => exact ih (Hdr.del h0 k) pre hn
     | writeHeader c =>
-      have hf := hn c h0 rfl
-      simp only [List.foldl_cons]
-      have h1 : BW.step cfg { hdr := h0, wroteHeader := false, writeBytes := false, out := [] } (.writeHeader c) =
-          toBW (Plain.step { hdr := h0, wrote := false, out := [] } (.writeHeader c)) := by
-        simp [BW.step, BW.writeHeader, Plain.step, toBW, hf]
-      rw [h1, post_run cfg t _ (by simp [Plain.step])]
-      rfl
+      cases hi : isInterim c
+      · have hf := hn c h0 (by simp [firstHead, hi])
+        simp only [List.foldl_cons]
+        have h1 : BW.step cfg { hdr := h0, wroteHeader := false, writeBytes := false, out := pre } (.writeHeader c) =
+            toBW (Plain.step { hdr := h0, wrote := false, out := pre } (.writeHeader c)) := by
+          simp [BW.step, BW.writeHeader, Plain.step, toBW, hf, hi]
+        rw [h1, post_run cfg t _ (by simp [Plain.step, hi])]
+        rfl
+      · simp only [List.foldl_cons]
+        rw [bw_wh_interim _ _ _ _ _ hi, plain_wh_interim _ _ _ hi]
+        exact ih h0 _ (by simpa [firstHead, hi] using hn)
     | write bs =>
       have hf := hn 200 h0 rfl
       simp only [List.foldl_cons]
-      have h1 : BW.step cfg { hdr := h0, wroteHeader := false, writeBytes := false, out := [] } (.write bs) =
-          toBW (Plain.step { hdr := h0, wrote := false, out := [] } (.write bs)) := by
-        simp [BW.step, BW.writeHeader, Plain.step, toBW, hf]
+      have h1 : BW.step cfg { hdr := h0, wroteHeader := false, writeBytes := false, out := pre } (.write bs) =
+          toBW (Plain.step { hdr := h0, wrote := false, out := pre } (.write bs)) := by
+        simp [BW.step, BW.writeHeader, Plain.step, toBW, hf, isInterim_200]
       rw [h1, post_run cfg t _ (by simp [Plain.step])]
       rfl
 
 /-! ### already framed: same body -/
-
-theorem bodyOf_append (a b : List Ev) : bodyOf (a ++ b) = bodyOf a ++ bodyOf b := by
-  simp [bodyOf]
 
 /-- after the head of an already-framed exchange -/
 def PostF (sp : Plain) (sb : BW) : Prop :=
@@ -292,6 +376,7 @@ theorem postF_step (cfg : Cfg) (sp : Plain) (sb : BW) (op : Op) (h : PostF sp sb
   cases op with
   | setHeader k v => exact ⟨h1, h2, h3, h4⟩
   | addHeader k v => exact ⟨h1, h2, h3, h4⟩
+  | delHeader k => exact ⟨h1, h2, h3, h4⟩
   | writeHeader c =>
     simp only [Plain.step, BW.step, BW.writeHeader, h1, h2, if_true]
     exact ⟨h1, h2, h3, h4⟩
@@ -306,34 +391,43 @@ theorem postF_run (cfg : Cfg) (ops : List Op) (sp : Plain) (sb : BW) (h : PostF 
   | nil => exact h.2.2.2
   | cons op t ih => exact ih _ _ (postF_step cfg sp sb op h)
 
-theorem framed_writeHeader (cfg : Cfg) (hf : cfg.alreadyFramed = true) (h0 : Hdr) (wb : Bool) (c : Int) :
-    ∃ h', BW.writeHeader cfg { hdr := h0, wroteHeader := false, writeBytes := wb, out := [] } c =
-      { hdr := h', wroteHeader := true, writeBytes := true, out := [.head c h'] } := by
+theorem framed_writeHeader (cfg : Cfg) (hf : cfg.alreadyFramed = true) (h0 : Hdr) (wb : Bool) (pre : List Ev) (c : Int)
+    (hi : isInterim c = false) :
+    ∃ h', BW.writeHeader cfg { hdr := h0, wroteHeader := false, writeBytes := wb, out := pre } c =
+      { hdr := h', wroteHeader := true, writeBytes := true, out := pre ++ [.head c h'] } := by
   cases hfr : banner_isFrameableHTMLResponse c h0
-  · exact ⟨h0, by simp [BW.writeHeader, hfr]⟩
-  · exact ⟨markFrame cfg h0, by simp [BW.writeHeader, hfr, hf]⟩
+  · exact ⟨h0, by simp [BW.writeHeader, hfr, hi]⟩
+  · exact ⟨markFrame cfg h0, by simp [BW.writeHeader, hfr, hf, hi]⟩
 
-theorem framed_run (cfg : Cfg) (hf : cfg.alreadyFramed = true) (ops : List Op) (h0 : Hdr) :
-    bodyOf (ops.foldl (BW.step cfg) { hdr := h0, wroteHeader := false, writeBytes := false, out := [] }).out =
-      bodyOf (ops.foldl Plain.step { hdr := h0, wrote := false, out := [] }).out := by
-  induction ops generalizing h0 with
+/-- generalised over the (interim) events `pre` already emitted by both writers -/
+theorem framed_run (cfg : Cfg) (hf : cfg.alreadyFramed = true) (ops : List Op) (h0 : Hdr) (pre : List Ev) :
+    bodyOf (ops.foldl (BW.step cfg) { hdr := h0, wroteHeader := false, writeBytes := false, out := pre }).out =
+      bodyOf (ops.foldl Plain.step { hdr := h0, wrote := false, out := pre }).out := by
+  induction ops generalizing h0 pre with
   | nil => rfl
   | cons op t ih =>
     cases op with
-    | setHeader k v => exact ih (Hdr.set h0 k v)
-    | addHeader k v => exact ih (Hdr.add h0 k v)
+    | setHeader k v => exact ih (Hdr.set h0 k v) pre
+    | addHeader k v => exact ih (Hdr.add h0 k v) pre
+    | delHeader k => exact ih (Hdr.del h0 k) pre
     | writeHeader c =>
-      simp only [List.foldl_cons]
-      apply postF_run
-      obtain ⟨h', hh⟩ := framed_writeHeader cfg hf h0 false c
-      simp only [BW.step, hh]
-      exact ⟨by simp [Plain.step], rfl, rfl, by simp [Plain.step, bodyOf]⟩
+      cases hi : isInterim c
+      · simp only [List.foldl_cons]
+        apply postF_run
+        obtain ⟨h', hh⟩ := framed_writeHeader cfg hf h0 false pre c hi
+        simp only [BW.step, hh]
+        rw [plain_wh_final _ _ _ hi]
+        exact ⟨rfl, rfl, rfl, by simp only [bodyOf_append, bodyOf_head]⟩
+      · simp only [List.foldl_cons]
+        rw [bw_wh_interim _ _ _ _ _ hi, plain_wh_interim _ _ _ hi]
+        exact ih h0 _
     | write bs =>
       simp only [List.foldl_cons]
       apply postF_run
-      obtain ⟨h', hh⟩ := framed_writeHeader cfg hf h0 false 200
+      obtain ⟨h', hh⟩ := framed_writeHeader cfg hf h0 false pre 200 isInterim_200
       simp only [BW.step, Bool.false_eq_true, if_false, hh, if_true]
-      exact ⟨by simp [Plain.step], rfl, rfl, by simp [Plain.step, bodyOf]⟩
+      rw [plain_write]
+      exact ⟨rfl, rfl, rfl, by simp only [bodyOf_append, bodyOf_head]⟩
 
 /-! ### not framed, banner target: the page -/
 
@@ -350,26 +444,172 @@ theorem frozen_run (cfg : Cfg) (ops : List Op) (sb : BW) (h1 : sb.wroteHeader = 
     obtain ⟨a, b, c⟩ := frozen_step cfg sb op h1 h2
     rw [List.foldl_cons, ih _ a b, c]
 
-theorem page_run (cfg : Cfg) (hf : cfg.alreadyFramed = false) (ops : List Op) (h0 : Hdr) (c : Int) (h : Hdr)
+/-- generalised over the events `pre` already emitted -/
+theorem page_run (cfg : Cfg) (hf : cfg.alreadyFramed = false) (ops : List Op) (h0 : Hdr) (pre : List Ev) (c : Int) (h : Hdr)
     (hh : firstHead h0 ops = some (c, h)) (hfr : banner_isFrameableHTMLResponse c h = true) :
-    (ops.foldl (BW.step cfg) { hdr := h0, wroteHeader := false, writeBytes := false, out := [] }).out =
-      [.head c (Hdr.Del (markFrame cfg h) banner_contentEncodingHeader), .body cfg.page] := by
-  induction ops generalizing h0 with
+    (ops.foldl (BW.step cfg) { hdr := h0, wroteHeader := false, writeBytes := false, out := pre }).out =
+      pre ++ preInterims h0 ops ++ [.head c (Hdr.Del (markFrame cfg h) banner_contentEncodingHeader), .body cfg.page] := by
+  induction ops generalizing h0 pre with
   | nil => cases hh
   | cons op t ih =>
     cases op with
-    | setHeader k v => exact ih (Hdr.set h0 k v) hh
-    | addHeader k v => exact ih (Hdr.add h0 k v) hh
+    | setHeader k v => exact ih (Hdr.set h0 k v) pre hh
+    | addHeader k v => exact ih (Hdr.add h0 k v) pre hh
+    | delHeader k => exact ih (Hdr.del h0 k) pre hh
     | writeHeader c' =>
-      simp only [firstHead, Option.some.injEq, Prod.mk.injEq] at hh
-      obtain ⟨rfl, rfl⟩ := hh
-      simp only [List.foldl_cons]
-      rw [frozen_run] <;> simp [BW.step, BW.writeHeader, hfr, hf]
+      cases hi : isInterim c'
+      · simp only [firstHead, hi, Bool.false_eq_true, if_false, Option.some.injEq, Prod.mk.injEq] at hh
+        obtain ⟨rfl, rfl⟩ := hh
+        simp only [List.foldl_cons, preInterims, hi, Bool.false_eq_true, if_false, List.append_nil]
+        rw [frozen_run] <;> simp [BW.step, BW.writeHeader, hfr, hf, hi]
+      · simp only [firstHead, hi, if_true] at hh
+        simp only [List.foldl_cons, preInterims, hi, if_true]
+        rw [bw_wh_interim _ _ _ _ _ hi, ih h0 _ hh]
+        simp only [List.append_assoc, List.cons_append, List.nil_append]
     | write bs =>
       simp only [firstHead, Option.some.injEq, Prod.mk.injEq] at hh
       obtain ⟨rfl, rfl⟩ := hh
-      simp only [List.foldl_cons]
-      rw [frozen_run] <;> simp [BW.step, BW.writeHeader, hfr, hf]
+      simp only [List.foldl_cons, preInterims, List.append_nil]
+      rw [frozen_run] <;> simp [BW.step, BW.writeHeader, hfr, hf, isInterim_200]
+
+/-- once the final head is out, the plain writer emits no more interim events -/
+theorem plain_post_interims (ops : List Op) (s : Plain) (hw : s.wrote = true) :
+    interimsOf (ops.foldl Plain.step s).out = interimsOf s.out := by
+  induction ops generalizing s with
+  | nil => rfl
+  | cons op t ih =>
+    rw [List.foldl_cons, ih _ (plain_step_wrote s op hw)]
+    cases op <;> simp [Plain.step, hw, interimsOf_append, interimsOf_body]
+
+theorem interims_plain_run (ops : List Op) (h0 : Hdr) (pre : List Ev) :
+    interimsOf (ops.foldl Plain.step { hdr := h0, wrote := false, out := pre }).out =
+      interimsOf pre ++ preInterims h0 ops := by
+  induction ops generalizing h0 pre with
+  | nil => simp [preInterims]
+  | cons op t ih =>
+    cases op with
+    | setHeader k v => exact ih (Hdr.set h0 k v) pre
+    | addHeader k v => exact ih (Hdr.add h0 k v) pre
+    | delHeader k => exact ih (Hdr.del h0 k) pre
+    | writeHeader c =>
+      cases hi : isInterim c
+      · simp only [List.foldl_cons, preInterims, hi, Bool.false_eq_true, if_false, List.append_nil]
+        rw [plain_wh_final _ _ _ hi, plain_post_interims _ _ rfl]
+        simp only [interimsOf_append, interimsOf_head, List.append_nil]
+      · simp only [List.foldl_cons, preInterims, hi, if_true]
+        rw [plain_wh_interim _ _ _ hi, ih h0 _]
+        simp only [interimsOf_append, interimsOf_interim, List.append_assoc, List.cons_append, List.nil_append]
+    | write bs =>
+      simp only [List.foldl_cons, preInterims, List.append_nil]
+      rw [plain_write, plain_post_interims _ _ rfl]
+      simp only [interimsOf_append, interimsOf_head, interimsOf_body, List.append_nil]
+
+/-- the form used by `C14.banner_page` -/
+theorem page_run_plain (cfg : Cfg) (hf : cfg.alreadyFramed = false) (ops : List Op) (h0 : Hdr) (c : Int) (h : Hdr)
+    (hh : firstHead h0 ops = some (c, h)) (hfr : banner_isFrameableHTMLResponse c h = true) :
+    (ops.foldl (BW.step cfg) { hdr := h0, wroteHeader := false, writeBytes := false, out := [] }).out =
+      interimsOf (plain h0 ops) ++ [.head c (Hdr.Del (markFrame cfg h) banner_contentEncodingHeader), .body cfg.page] := by
+  rw [page_run cfg hf ops h0 [] c h hh hfr, plain, interims_plain_run, interimsOf_nil]
+
+/-! ### status and interim responses: a simulation between the two writers -/
+
+/-- after the final head: same status, same interim events -/
+def PostS (sp : Plain) (sb : BW) : Prop :=
+  sp.wrote = true ∧ sb.wroteHeader = true ∧ statusOf sb.out = statusOf sp.out ∧ interimsOf sb.out = interimsOf sp.out
+
+theorem postS_step (cfg : Cfg) (sp : Plain) (sb : BW) (op : Op) (h : PostS sp sb) :
+    PostS (Plain.step sp op) (BW.step cfg sb op) := by
+  obtain ⟨h1, h2, h3, h4⟩ := h
+  cases op with
+  | setHeader k v => exact ⟨h1, h2, h3, h4⟩
+  | addHeader k v => exact ⟨h1, h2, h3, h4⟩
+  | delHeader k => exact ⟨h1, h2, h3, h4⟩
+  | writeHeader c =>
+    simp only [Plain.step, BW.step, BW.writeHeader, h1, h2, if_true]
+    exact ⟨h1, h2, h3, h4⟩
+  | write bs =>
+    simp only [Plain.step, BW.step, h1, h2, if_true]
+    cases sb.writeBytes
+    · simp only [Bool.false_eq_true, if_false]
+      refine ⟨rfl, h2, ?_, ?_⟩
+      · simp only [statusOf_append, statusOf_body, Option.or_none, h3]
+      · simp only [interimsOf_append, interimsOf_body, List.append_nil, h4]
+    · simp only [if_true]
+      refine ⟨rfl, rfl, ?_, ?_⟩
+      · simp only [statusOf_append, statusOf_body, Option.or_none, h3]
+      · simp only [interimsOf_append, interimsOf_body, List.append_nil, h4]
+
+theorem postS_run (cfg : Cfg) (ops : List Op) (sp : Plain) (sb : BW) (h : PostS sp sb) :
+    PostS (ops.foldl Plain.step sp) (ops.foldl (BW.step cfg) sb) := by
+  induction ops generalizing sp sb with
+  | nil => exact h
+  | cons op t ih => exact ih _ _ (postS_step cfg sp sb op h)
+
+/-- the final `WriteHeader` of the banner writer: some head with the same status, possibly the page -/
+theorem bw_final (cfg : Cfg) (h0 : Hdr) (wb : Bool) (pre : List Ev) (c : Int) (hi : isInterim c = false) :
+    ∃ h' wb' l, BW.writeHeader cfg { hdr := h0, wroteHeader := false, writeBytes := wb, out := pre } c =
+      { hdr := h', wroteHeader := true, writeBytes := wb', out := pre ++ .head c h' :: l } ∧
+      (l = [] ∨ l = [.body cfg.page]) := by
+  cases hfr : banner_isFrameableHTMLResponse c h0
+  · exact ⟨h0, true, [], by simp [BW.writeHeader, hfr, hi], Or.inl rfl⟩
+  · cases hf : cfg.alreadyFramed
+    · exact ⟨Hdr.Del (markFrame cfg h0) banner_contentEncodingHeader, wb, [.body cfg.page], by simp [BW.writeHeader, hfr, hf, hi], Or.inr rfl⟩
+    · exact ⟨markFrame cfg h0, true, [], by simp [BW.writeHeader, hfr, hf, hi], Or.inl rfl⟩
+
+theorem statusOf_final (pre : List Ev) (c : Int) (h h' : Hdr) (l : List Ev) :
+    statusOf (pre ++ .head c h' :: l) = statusOf (pre ++ [.head c h]) := by
+  simp only [statusOf_append, statusOf_cons_head]
+
+theorem interimsOf_final (pre : List Ev) (c : Int) (h h' : Hdr) (l : List Ev) (page : Bytes)
+    (hl : l = [] ∨ l = [.body page]) :
+    interimsOf (pre ++ .head c h' :: l) = interimsOf (pre ++ [.head c h]) := by
+  rcases hl with rfl | rfl
+  · simp only [interimsOf_append, interimsOf_head]
+  · simp only [interimsOf_append, interimsOf_head, interimsOf_head_body]
+
+theorem sim_run (cfg : Cfg) (ops : List Op) (h0 : Hdr) (pre : List Ev) :
+    let sp := ops.foldl Plain.step { hdr := h0, wrote := false, out := pre }
+    let sb := ops.foldl (BW.step cfg) { hdr := h0, wroteHeader := false, writeBytes := false, out := pre }
+    statusOf sb.out = statusOf sp.out ∧ interimsOf sb.out = interimsOf sp.out := by
+  induction ops generalizing h0 pre with
+  | nil => exact ⟨rfl, rfl⟩
+  | cons op t ih =>
+    cases op with
+    | setHeader k v => exact ih (Hdr.set h0 k v) pre
+    | addHeader k v => exact ih (Hdr.add h0 k v) pre
+    | delHeader k => exact ih (Hdr.del h0 k) pre
+    | writeHeader c =>
+      cases hi : isInterim c
+      · obtain ⟨h', wb', l, hh, hl⟩ := bw_final cfg h0 false pre c hi
+        have hp : PostS (Plain.step { hdr := h0, wrote := false, out := pre } (.writeHeader c))
+            (BW.step cfg { hdr := h0, wroteHeader := false, writeBytes := false, out := pre } (.writeHeader c)) := by
+          simp only [BW.step, hh]
+          rw [plain_wh_final _ _ _ hi]
+          exact ⟨rfl, rfl, statusOf_final _ _ _ _ _, interimsOf_final _ _ _ _ _ _ hl⟩
+        have := postS_run cfg t _ _ hp
+        exact ⟨this.2.2.1, this.2.2.2⟩
+      · simp only [List.foldl_cons]
+        rw [bw_wh_interim _ _ _ _ _ hi, plain_wh_interim _ _ _ hi]
+        exact ih h0 _
+    | write bs =>
+      obtain ⟨h', wb', l, hh, hl⟩ := bw_final cfg h0 false pre 200 isInterim_200
+      have hp : PostS (Plain.step { hdr := h0, wrote := false, out := pre } (.write bs))
+          (BW.step cfg { hdr := h0, wroteHeader := false, writeBytes := false, out := pre } (.write bs)) := by
+        simp only [BW.step, Bool.false_eq_true, if_false, hh]
+        rw [plain_write]
+        cases wb'
+        · refine ⟨rfl, rfl, ?_, ?_⟩
+          · simp only [Bool.false_eq_true, if_false, statusOf_append, statusOf_cons_head, statusOf_body, Option.or_none]
+          · simp only [Bool.false_eq_true, if_false]
+            rw [interimsOf_final _ _ h0 _ _ _ hl]
+            simp only [interimsOf_append, interimsOf_head, interimsOf_body, List.append_nil]
+        · refine ⟨rfl, rfl, ?_, ?_⟩
+          · simp only [if_true, statusOf_append, statusOf_cons_head, statusOf_body, Option.or_none]
+          · simp only [if_true]
+            rw [interimsOf_append, interimsOf_final _ _ h0 _ _ _ hl]
+            simp only [interimsOf_append, interimsOf_head, interimsOf_body, List.append_nil]
+      have := postS_run cfg t _ _ hp
+      exact ⟨this.2.2.1, this.2.2.2⟩
 
 theorem page_headers (cfg : Cfg) (h : Hdr) :
     let h' := Hdr.Del (markFrame cfg h) banner_contentEncodingHeader
